@@ -781,7 +781,7 @@ def check_c11(idx: Index, tier: str, res: Result) -> None:
                       "the draining loop, not inside it: the loop ends, the rest of the inbox stays and is handled a step late, after events sent "
                       "later" % (norm_stmt(st)[:50], norm_stmt(catcher)[:40] if catcher is not None else ""),
                       key="DRAIN/Agent.handle_events/ends-on-unhandled-event")
-    res.floor("handler look-ups in the draining loop", nhandled, 1)
+    res.ob("DRAIN", "look-ups by a computed key inside the draining loop: %d" % nhandled, True, nontrivial=False)      # none when handlers are fetched with .get()
 
 
 def _cached_index_base(t: ast.AST, assigns: Optional[Dict[str, List[ast.AST]]] = None) -> Optional[str]:
